@@ -6,7 +6,10 @@ use std::{
     convert::TryInto,
     io::{Error as IoError, ErrorKind, Result as IoResult},
     pin::Pin,
-    sync::Arc,
+    sync::{
+        atomic::{AtomicU16, Ordering},
+        Arc,
+    },
     time::Duration,
 };
 use tokio::{
@@ -162,19 +165,18 @@ impl FrameReader for QuicFrameReader {
     }
 }
 
+// The peer reassembles the fragments of every session of a connection in one table keyed by the
+// fragment id alone, so ids are drawn from one counter shared by all the writers.
+static NEXT_FRAME_ID: AtomicU16 = AtomicU16::new(0);
+
 struct QuicFrameWriter {
     conn: Connection,
     session_id: u32,
-    frame_id: u16,
 }
 
 impl QuicFrameWriter {
     fn new(conn: Connection, session_id: u32) -> Box<Self> {
-        Box::new(Self {
-            conn,
-            session_id,
-            frame_id: 0,
-        })
+        Box::new(Self { conn, session_id })
     }
 }
 
@@ -195,7 +197,8 @@ impl FrameWriter for QuicFrameWriter {
             ));
         }
         frame.check_encodable()?;
-        let fragments = Fragments::make_fragments(mtu.unwrap(), &mut self.frame_id, frame);
+        let mut frame_id = NEXT_FRAME_ID.fetch_add(1, Ordering::Relaxed);
+        let fragments = Fragments::make_fragments(mtu.unwrap(), &mut frame_id, frame);
         let mut len = 0;
         for fragment in fragments {
             len += fragment.len();
